@@ -9,7 +9,8 @@ import LopdfModel.Model.Parse
       then `trailer`, white space, a dictionary with an integer `Size` — or an object `n g obj`
       that is an unfiltered `/Type /XRef` stream with `W` (3 widths ≤ 8), `Size`, `Index` (pairs),
       `Length = rows × row width`, entry types 0/1 only, listing ITSELF at its own offset;
-  R3  no object number twice in one section; generations ≤ 65535; `Size` exceeds every number;
+  R3  no object number twice in one section; generations ≤ 65535; `Size` exceeds every number of the section, and the
+      newest trailer's `Size` exceeds the number of every object of the file;
   R4  the section ends exactly where `\nstartxref\n` begins;
   R5  every in-use entry points at exactly `n g obj` EOL; the object body parses; a stream is
       `dict` immediately followed by `stream` LF|CRLF, `Length` bytes (direct or resolved inside
@@ -462,7 +463,15 @@ def strictLoad (b : Bytes) : Res StrictDoc :=
       match revs with
       | [] => .error "no revision"
       | newest :: _ =>
-        .ok { version := version, objects := mergeRevs revs [] [], trailer := newest.rev.trailer,
-              revisions := revs.length, xrefStreamIds := revs.filterMap (·.rev.selfId) }
+        -- R3 for the whole file: the `Size` a reader uses is the newest trailer's, and it exceeds the number of every
+        -- object the file defines (in any revision)
+        match Dict.get newest.rev.trailer kSize with
+        | some (.int sz) =>
+          if !((mergeRevs revs [] []).all fun p => (p.1.1 : Int) < sz) then
+            .error "Size of the newest trailer does not exceed every object number of the file"
+          else
+          .ok { version := version, objects := mergeRevs revs [] [], trailer := newest.rev.trailer,
+                revisions := revs.length, xrefStreamIds := revs.filterMap (·.rev.selfId) }
+        | _ => .error "trailer without Size"
 
 end Lopdf.Strict
